@@ -242,9 +242,10 @@ pub fn configs(tier: Tier, prop: &str) -> Vec<(Cfg, Plan)> {
         Tier::Thorough => {
             let focuses = [Focus::Delivery, Focus::ChurnSub, Focus::ChurnPub, Focus::Full];
             for c in local_set(&focuses, 4) {
-                let leaves = if prop == "C08" { 40_000.0 } else { 120_000.0 };
+                let leaves = if prop == "C08" { 25_000.0 } else { 120_000.0 };
                 let d = depth_for(&c, prop, leaves, 5, 8);
-                out.push((c, Plan { tree_depth: d, finish_prefixes: false, frontier: Some((1500, 12)), split: 1 }));
+                let states = if prop == "C08" { 1000 } else { 1500 };
+                out.push((c, Plan { tree_depth: d, finish_prefixes: false, frontier: Some((states, 12)), split: 1 }));
             }
             let focuses = [Focus::Delivery, Focus::ChurnSub, Focus::ChurnPub];
             for c in ipc_set(&focuses, 3) {
